@@ -437,7 +437,7 @@ pub fn def(tier: Tier) -> PropertyDef {
 	let mut checks: Vec<Box<dyn SubCheck>> = Vec::new();
 	let max_len = tier.pick(300usize, 1200);
 	for kind in KINDS {
-		checks.push(pt(&format!("laws_{kind:?}"), tier.pick(5000, 20000), laws_strategy(kind, max_len), run_laws));
+		checks.push(pt(&format!("laws_{kind:?}"), tier.pick(10000, 40000), laws_strategy(kind, max_len), run_laws));
 	}
 	for kind in KINDS {
 		checks.push(enumerate(
